@@ -635,3 +635,14 @@ PROPS["C15"]["profiles"] = PROPS["C15"]["profiles"] + [dict(name="merkle_wide", 
 
 PROPS["C16"]["required_theorems"] += ["Crdt.C16.map_ok_iff", "Crdt.C16.map_new_key_ok_iff"]
 PROPS["C16"]["explanation"] += " Map: exact verdict for all states and value types (map_ok_iff: map-clock gap, ENTRY-clock gap, nested verdict); the entry-clock clause is the defect F7 – e.g. only an actor's first update can create a key (map_new_key_ok_iff)."
+
+# system-level model for List (Props/SysList.lean): LogWF / Reach / identifier facts are invariants of every API-driven run
+_SYS_L = ["Crdt.SysList." + t for t in ["run_logWF", "run_reach", "run_own_known", "run_fresh_dot", "run_insert_id", "run_state_eq_spec", "run_same_ops_same_sequence",
+                                         "run_same_ops_same_sequence_later", "run_global_order", "run_relative_order_stable_later", "run_no_duplicates", "run_duplicate_absorbed",
+                                         "run_insert_lands_at_index", "run_append_lands_last", "run_delete_removes_index", "runC_causal_ok"]]
+for _pid in ("C12", "C13", "C01", "C09"):
+    PROPS[_pid]["lean_targets"] = PROPS[_pid]["lean_targets"] + ["CrdtModel.Props.SysList"]
+    PROPS[_pid]["required_theorems"] = PROPS[_pid]["required_theorems"] + _SYS_L
+    PROPS[_pid]["explanation"] += (" System level for List (Props/SysList.lean): in the model whose ops are only produced by insert_index / append / delete_index from the issuing replica's state and delivered under the "
+                                   "C12 discipline (a genuinely causal sub-system RunC is shown to be a sub-system), LogWF, Reach-derivability, fresh contiguous dots and the identifier facts (non-empty, ending in the op's dot, unique) are "
+                                   "invariants of every run, so C12 / C13 hold for every execution with no hypothesis (run_same_ops_same_sequence(_later), run_global_order, run_no_duplicates, run_insert_lands_at_index, …).")
